@@ -210,9 +210,14 @@ func checkAllocators(c *Ctx, rule string) {
 		R.Check(ok, rule, "icmp.nextEchoID#result", ne.Pos(), core.FuncName(ne), "the echo id is the atomically incremented counter itself (mod 2^16)", fmt.Sprintf("the echo id is post-processed after the atomic increment (%d return paths, e.g. %s): two allocations can yield the same identifier while fewer than 65536 are live", len(rps), desc))
 	}
 	// SYN driver ids are base + widen(ttl) with base from AllocPacketID(MaxTTL)
-	g := c.P.Func("(*tcp.tcpDriver).getNextPacketIDAndSeqNum")
+	var g *ssa.Function
+	for _, d := range Drivers(c.P) {
+		if d.Pkg == "tcp" {
+			g = synIDFunc(c, d)
+		}
+	}
 	if g == nil {
-		R.Fail(rule, "tcp.getNextPacketIDAndSeqNum#anchor", 0, "", "anchor (*tcp.tcpDriver).getNextPacketIDAndSeqNum no longer resolves")
+		R.Fail(rule, "tcp.getNextPacketIDAndSeqNum#anchor", 0, "", "the SYN driver's (IP-ID, sequence number) allocation method no longer resolves (no unique (uint16, uint32) function in SendProbe's tree)")
 	} else {
 		rps, _ := core.ReturnPaths(c.P, g, 100)
 		n := 0
